@@ -336,6 +336,29 @@ func ChanCap(site string, n int) {}
 // Foreground makes background threads whose function name contains sub part of schedule exploration.
 func Foreground(sub string) {}
 
+// Symbolic reports whether the harness runs under the symbolic executor (false natively).
+func Symbolic() bool { return false }
+
+// TempDir returns a fresh scratch directory (natively; under gosym nothing touches the disk).
+func TempDir() string {
+	d, err := os.MkdirTemp("", "verif-")
+	if err != nil {
+		panic(err)
+	}
+	tempDirs = append(tempDirs, d)
+	return d
+}
+
+var tempDirs []string
+
+// Cleanup removes the scratch directories made by TempDir.
+func Cleanup() {
+	for _, d := range tempDirs {
+		os.RemoveAll(d)
+	}
+	tempDirs = nil
+}
+
 // FireTimers runs every pending time.AfterFunc callback (natively: waits for them to fire).
 func FireTimers() { time.Sleep(time.Duration(Param("native_timer_ms", 1300)) * time.Millisecond) }
 
@@ -376,6 +399,7 @@ func RunNative(f func()) (out Outcome) {
 
 // PrintOutcome writes the outcome as one JSON line prefixed by VERIF-OUTCOME.
 func PrintOutcome(o Outcome) {
+	Cleanup()
 	b, _ := json.Marshal(o)
 	fmt.Println("VERIF-OUTCOME " + string(b))
 }
